@@ -55,7 +55,7 @@ func propC05(ch core.Chooser, st *core.Stats) error {
 	if err := s.readback("after Compact"); err != nil {
 		return err
 	}
-	if err := s.runOps(ch.Int("nops", 0, core.Scale(10, 50)), []int{6, 4, 4, 1, 1, 1, 2}); err != nil {
+	if err := s.runOps(ch.Int("nops", 0, core.Scale(10, 50)), []int{6, 4, 4, 1, 1, 1, 2, 1}); err != nil {
 		return err
 	}
 	// a dropped delete marker or a lost copy only shows after a recovery: always end with one
